@@ -6,6 +6,7 @@ import MosnVerif.Model.DubboThrift
 import MosnVerif.Model.Tars
 import MosnVerif.Model.EnvelopeRef
 import MosnVerif.Model.HttpUri
+import MosnVerif.Model.Relay
 /-!
 Driver of C01 (forwarding fidelity).  Case lines:
 
@@ -203,6 +204,44 @@ def uriCase (tS rwS pvS poS qsS unS fhS ruS : String) (impl : List String) : Str
     | _, _, _ => "E E bad-uri-case"
   | _, _, _, _, _, _, _ => "E E bad-uri-case"
 
+/-! ### TCP relay
+
+  `relay <scenario A|B|C|D> <client chunk sizes> <server chunk sizes> <client extra chunk sizes> => <c2s> <s2c>`
+A/F: client writes and closes at once (F: bulk, the upstream reads late). E: the upstream pushes bulk and closes at
+once, the client reads late. B: request, then response and the server closes at once. C: the server pushes and
+closes at once. D: request, response, more client data, client closes at once.  Verdicts: `ok` | `short:n` | `corrupt@i` | `extra:n`. -/
+
+def parseSizes (s : String) : Option (List Nat) :=
+  if s == "-" then some [] else (s.splitOn ",").mapM (·.toNat?)
+
+/-- the schedule of a scenario: every chunk is read by MOSN, then the write loop of the other side drains -/
+def relaySchedule (scen : String) (cs ss ex : List Nat) : List Relay.Ev :=
+  let rd (d : Relay.Side) (l : List Nat) : List Relay.Ev := l.map (fun n => .read d (List.replicate n 0))
+  let wr (d : Relay.Side) (k : Nat) : List Relay.Ev := List.replicate (k + 1) (.write d)
+  match scen with
+  | "A" | "F" => rd .down cs ++ [.peerClosed .down] ++ wr .up cs.length
+  | "E" => rd .up ss ++ [.peerClosed .up] ++ wr .down ss.length
+  | "B" => rd .down cs ++ wr .up cs.length ++ rd .up ss ++ [.peerClosed .up] ++ wr .down ss.length
+  | "C" => rd .up ss ++ [.peerClosed .up] ++ wr .down ss.length
+  | _ => rd .down cs ++ wr .up cs.length ++ rd .up ss ++ wr .down ss.length ++ rd .down ex ++ [.peerClosed .down] ++
+         wr .up ex.length
+
+def relayCase (scen csS ssS exS : String) (impl : List String) : String :=
+  match parseSizes csS, parseSizes ssS, parseSizes exS, impl with
+  | some cs, some ss, some ex, [c2s, s2c] =>
+    -- only lengths matter to the comparison: large chunks are scaled down (monotone, applied to every chunk alike)
+    let sc (l : List Nat) := l.map (fun n => if n > 1024 then 1024 + n / 65536 else n)
+    let (cs, ss, ex) := (sc cs, sc ss, sc ex)
+    let s := Relay.run {} (relaySchedule scen cs ss ex)
+    let tot (l : List Nat) := l.foldl (· + ·) 0
+    let v (got want : Nat) : String := if got == want then "ok" else s!"short:{got}"
+    let m1 := v s.up.sent.length (tot cs + tot ex)
+    let m2 := v s.down.sent.length (tot ss)
+    let agree := m1 == c2s && m2 == s2c
+    let spec := c2s == "ok" && s2c == "ok"
+    s!"{if agree then "A" else "D"} {if spec then "S" else "V"} {m1} {m2}"
+  | _, _, _, _ => "E E bad-relay-case"
+
 def run (caseToks impl : List String) : String :=
   match caseToks with
   | ["bolt", id, ops, inp] => boltCase false id ops inp impl
@@ -211,6 +250,7 @@ def run (caseToks impl : List String) : String :=
   | ["thrift", id, ops, ok, inp] => thriftCase id ops ok inp impl
   | ["tars", kind, id, ops, valid, fields, inp] => tarsCase kind id ops valid fields inp impl
   | ["uri", t, rw, pv, po, qs, un, fh, ru] => uriCase t rw pv po qs un fh ru impl
+  | ["relay", scen, cs, ss, ex] => relayCase scen cs ss ex impl
   | _ => "E E unknown-kind"
 
 end MosnVerif.Drive.C01
